@@ -120,6 +120,11 @@ def _timing_for(c, member_obj):
         return Timing.create_with_regular_interval(_mk_td(src, UNIT[src]), member_obj), lambda t: t.timestamp
     if via == "timing_timestamps":
         return Timing.create_with_irregular_interval([member_obj, member_obj]), lambda t: list(t.get_timestamps(0, 2))[1]
+    if via == "timing_timestamps_mixed":
+        # timestamps of mixed families (reachable by appending differently stamped waveforms): the first one already
+        # has the destination type, the member under test follows it
+        first = _mk_dtm(c["dst"], 0, c.get("tz", 1) if c["dst"] != "Bt" else 1, 0)
+        return Timing.create_with_irregular_interval([first, member_obj]), lambda t: list(t.get_timestamps(0, 2))[1]
     raise AssertionError(via)
 
 
@@ -335,7 +340,7 @@ def gen_cases(rng, tier):
                 if src != "Bt":   # stay a day inside the calendar range so that every tz kind is constructible
                     day = 86400 * UNIT[src]
                     v = max(DTM_LO_US * (UNIT[src] // US) + day, min(DTM_HI_US * (UNIT[src] // US) - day, v))
-                via = rng.choice(["direct", "direct", "timing_timestamp", "timing_timestamps"])
+                via = rng.choice(["direct", "direct", "timing_timestamp", "timing_timestamps", "timing_timestamps_mixed"])
                 if via != "direct" and tz == 0 and dst == "Bt":
                     via = "direct"
                 cse = {"k": "conv_dtm", "src": src, "dst": dst, "v": v, "tz": tz, "fold": rng.choice([0, 0, 1]) if src != "Bt" else 0,
